@@ -112,6 +112,12 @@ func run11(t *testing.T, cs Case) *ev.Verdict {
 	v.Canon = string(canon)
 	c, berr := sched.Run(t, []string{"broadcast.lock", "broadcast.unlocked", "promise.set", "promise.set.mid"}, cs.Sched, func(c *sched.Ctl) { body11(c, cs, v) })
 	v.Trace = c.Trace()
+	if c.Prio {
+		v.Class("priority-schedule")
+	}
+	if c.Mix {
+		v.Class("uniform-decisions")
+	}
 	if c.StepLimit && len(v.Viol) == 0 {
 		tr := v.Trace
 		if len(tr) > 12 {
